@@ -38,7 +38,7 @@ Empty(mx) ==
     [] mx = "option(sum)" -> [t |-> "some", v |-> I(0)]
     [] mx \in {"option(string)", "try(string)"} -> [t |-> "some", v |-> S(<<>>)]
     [] mx \in {"mergeseq", "mergeslice"} -> [t |-> "seq", xs |-> <<>>, nil |-> TRUE]
-    [] mx \in {"mergegomap", "mergemap", "mergeset"} -> [t |-> "map", ks |-> <<>>, vs |-> <<>>, nil |-> FALSE]
+    [] mx \in {"mergegomap", "mergemap", "mergemap#collide", "mergeset"} -> [t |-> "map", ks |-> <<>>, vs |-> <<>>, nil |-> FALSE]
     [] mx \in {"ptr(sum)", "ptr(string)"} -> [t |-> "nilptr"]
     [] mx \in {"tuple(sum,string)", "hcons(sum,string)"} -> [t |-> "tup", xs |-> <<I(0), S(<<>>)>>]
     [] mx \in {"dual(string)", "eval(string)"} -> S(<<>>)
@@ -55,7 +55,7 @@ Comb(mx, a, b) ==
     [] mx = "option(string)" -> IF a.t = "some" /\ b.t = "some" THEN [t |-> "some", v |-> S(a.v.cs \o b.v.cs)] ELSE [t |-> "none"]
     [] mx = "try(string)" -> IF a.t # "some" THEN a ELSE IF b.t # "some" THEN b ELSE [t |-> "some", v |-> S(a.v.cs \o b.v.cs)]
     [] mx \in {"mergeseq", "mergeslice"} -> [t |-> "seq", xs |-> a.xs \o b.xs, nil |-> FALSE]
-    [] mx \in {"mergegomap", "mergemap", "mergeset"} -> MapUnion(a, b)
+    [] mx \in {"mergegomap", "mergemap", "mergemap#collide", "mergeset"} -> MapUnion(a, b)
     [] mx \in {"ptr(sum)", "sg.ptr(sum)"} -> IF a.t = "ptr" /\ b.t = "ptr" THEN [t |-> "ptr", v |-> I(a.v.n + b.v.n)] ELSE IF a.t = "nilptr" THEN b ELSE a
     [] mx = "ptr(string)" -> IF a.t = "ptr" /\ b.t = "ptr" THEN [t |-> "ptr", v |-> S(a.v.cs \o b.v.cs)] ELSE IF a.t = "nilptr" THEN b ELSE a
     [] mx \in {"tuple(sum,string)", "hcons(sum,string)"} -> [t |-> "tup", xs |-> <<I(a.xs[1].n + b.xs[1].n), S(a.xs[2].cs \o b.xs[2].cs)>>]
